@@ -36,8 +36,8 @@ func init() {
 		ID:    "C20",
 		Level: "exploration",
 		Rule: "case = G goroutines (2, 4, 16, 64 by index), goroutine g owns UE context g (own keys, algorithm pair cycling through {NIA1,NIA2}x{NEA0,NEA1,NEA2}) and executes a seeded script (lock-step prefix of 3 rounds over all operation kinds, then one burst of 16 (quick) / 64 (thorough) consecutive operations per kind at the same script positions in every goroutine, then a mixed random tail of 60 / 400) of operations drawn from " +
-			"NGAP build+encode, NGAP decode, plain NAS encode/decode, NAS protect (EncodeNasPduWithSecurity), NAS unprotect (NASDecode), key derivation (DeriveRESstarAndSetKey), NASEncrypt, NASMacCalculate, Milenage F1/F2345, and - generated inside the goroutine - any of the 77 NGAP message types (encode, decode, re-encode), the 25 transfer container types through aper.MarshalWithParams/UnmarshalWithParams, any of the 45 NAS message types with a random optional-IE subset, the 64 builders that do not write the announced PLMN, the identity / conversion helpers (EncodeSuci, CreateUE, capability, PLMN, S-NSSAI, AMF id, transport address, PCO, DNN) and the two hand-written extractors on reference-built messages; " +
-			"GOMAXPROCS alternates between 2 and 16, Gosched calls are sprinkled by the script. Each case is a fresh process: the scripts run concurrently FIRST (caches and lazily built tables cold; a lock-step prefix makes every goroutine use each operation kind on identical inputs at the same time, so first uses collide), then one goroutine at a time for reference. Seven further cases are HOT LOOPS: 8 goroutines with related keys (equal leading octets; in every second loop IDENTICAL keys and pairs of goroutines issuing the same calls with the same inputs) run 12 000 (quick) / 120 000 (thorough) iterations of one or two cheap operation kinds (MAC+cipher, key derivation, Milenage, conversions, ...), for windows of a few instructions. distinct = hash(G, scripts); non-trivial = overlapping operations were observed",
+			"NGAP build+encode, NGAP decode, plain NAS encode/decode, NAS protect (EncodeNasPduWithSecurity), NAS unprotect (NASDecode), key derivation (DeriveRESstarAndSetKey), NASEncrypt, NASMacCalculate, Milenage F1/F2345, and - generated inside the goroutine - any of the 77 NGAP message types (encode, decode, re-encode), the 25 transfer container types through aper.MarshalWithParams/UnmarshalWithParams, any of the 45 NAS message types with a random optional-IE subset, the 64 builders that do not write the announced PLMN, the identity / conversion helpers (EncodeSuci, CreateUE, capability, PLMN, S-NSSAI, AMF id, transport address, PCO, DNN) the two hand-written extractors on reference-built messages, values of 16K octets and more, the exported algorithm functions NEA1 / NIA1 / NEA2 / NIA2 themselves and decodes of the most deeply nested message types; " +
+			"GOMAXPROCS alternates between 2 and 16, Gosched calls are sprinkled by the script. Each case is a fresh process: the scripts run concurrently FIRST (caches and lazily built tables cold; a lock-step prefix makes every goroutine use each operation kind on identical inputs at the same time, so first uses collide), then one goroutine at a time for reference. Eight further cases are HOT LOOPS (the last one: 128 goroutines that decode their own deepest NGAP message back to back): 8 goroutines with related keys (equal leading octets; in every second loop IDENTICAL keys and pairs of goroutines issuing the same calls with the same inputs) run 12 000 (quick) / 120 000 (thorough) iterations of one or two cheap operation kinds (MAC+cipher, key derivation, Milenage, conversions, ...), for windows of a few instructions. distinct = hash(G, scripts); non-trivial = overlapping operations were observed",
 		Assumptions: []string{
 			"NG Setup (which writes the announced PLMN) is issued once before the goroutines start, as in the emulator",
 			"'all interleavings' is approached by stress; the race detector's verdict is timing independent (happens-before), the determinism oracle's is not",
